@@ -21,7 +21,10 @@ input NN2 { must: NN1! }
 input Own { own: Own! }
 input OO @oneOf { a: OO b: Int c: [OO!] }
 type Query { node: Node a: A b: B c: C u: U one: One lonely: Lonely selfu: SelfU x: Int deep: Deep }
-type Mutation { m(i: RI, n: NN1, o: Own, oo: OO): Int }
+input Wrap { r: RI n: NN1 o: Own oo: OO list: [Wrap2!] }
+input Wrap2 { inner: RJ deep: Wrap3 }
+input Wrap3 { loop: Wrap3 other: [RI] }
+type Mutation { m(i: RI, n: NN1, o: Own, oo: OO, w: Wrap, w2: Wrap2): Int }
 type Subscription { s: Node }
 type Deep { d: Deep v: Int ll: [[[[[[[[Int]]]]]]]] }
 """
@@ -55,6 +58,20 @@ def spread_cycles():
                     tn = "__typename " if with_tn else ""
                     doc = "query Q { %s { %s...F0 } }\n%s\n" % (root, tn, "\n".join(frs))
                     out.append(("spread-cycle kind=%s len=%d typename=%s via-field=%s" % (kind, n, with_tn, through_field), doc))
+    # a tail of fragments that are not themselves on the cycle, leading into a cycle of length 1..4
+    for n in range(1, 5):
+        for tail in (1, 2):
+            for with_tn in (False, True):
+                tn = "__typename " if with_tn else ""
+                frs = []
+                for i in range(tail):
+                    nxt = "T%d" % (i + 1) if i + 1 < tail else "F0"
+                    frs.append("fragment T%d on A { id a { ...%s } }" % (i, nxt))
+                for i in range(n):
+                    frs.append("fragment F%d on A { id b { a { ...F%d } } }" % (i, (i + 1) % n))
+                out.append(("spread-cycle tail=%d into cycle len=%d" % (tail, n), "query Q { a { ...T0 } }\n%s\n" % "\n".join(frs)))
+                frs2 = ["fragment T0 on Node { %s...F0 }" % tn] + ["fragment F%d on Node { %snext { %s...F%d } }" % (i, tn, tn, (i + 1) % n) for i in range(n)]
+                out.append(("spread-cycle interface tail into cycle len=%d typename=%s" % (n, with_tn), "query Q { node { %s...T0 } }\n%s\n" % (tn, "\n".join(frs2))))
     # cycles mixing types: A -> Node -> A
     out.append(("spread-cycle mixed", "query Q { a { ...X } }\nfragment X on A { ...Y }\nfragment Y on Node { __typename ... on A { ...X } }\n"))
     out.append(("spread-cycle mixed-no-typename", "query Q { a { ...X } }\nfragment X on A { ...Y }\nfragment Y on Node { ... on A { ...X } }\n"))
@@ -80,7 +97,11 @@ def input_cycles():
             ("input-cycle non-null pair", "mutation M($n: NN1!) { m(n: $n) }\n"),
             ("input-cycle non-null self", "mutation M($o: Own) { m(o: $o) }\n"),
             ("input-cycle oneOf", "mutation M($oo: OO, $l: [OO!]!) { m(oo: $oo) }\n"),
-            ("input-cycle all", "mutation M($i: RI!, $n: NN1, $o: Own!, $oo: OO) { m(i: $i, n: $n, o: $o, oo: $oo) }\n")]
+            ("input-cycle all", "mutation M($i: RI!, $n: NN1, $o: Own!, $oo: OO) { m(i: $i, n: $n, o: $o, oo: $oo) }\n"),
+            # cycles that do not pass through the variable's own type
+            ("input-cycle behind a wrapper", "mutation M($w: Wrap) { m(w: $w) }\n"),
+            ("input-cycle behind two wrappers", "mutation M($w2: Wrap2!) { m(w2: $w2) }\n"),
+            ("input-cycle behind a list wrapper", "mutation M($ws: [Wrap!]) { m }\n")]
 
 
 def degenerate():
